@@ -98,41 +98,66 @@ func init() {
 				return err
 			}
 			r.Analysed = 2
-			// (1) IsAncestorOf: Return(false, nil) only via errors.Is(err, io.EOF) true edge
-			var eofTests []ssa.Value
-			eachCall(isAnc, func(c ssa.CallInstruction) {
-				if f := calleeFunc(c); f != nil && f.FullName() == "errors.Is" && len(c.Common().Args) == 2 && isGlobalNamed(c.Common().Args[1], "io", "EOF") {
-					if v, ok := c.(*ssa.Call); ok {
-						eofTests = append(eofTests, v)
-					}
-				}
-			})
-			// err == io.EOF form
-			for _, b := range isAnc.Blocks {
-				for _, in := range b.Instrs {
-					if bo, ok := in.(*ssa.BinOp); ok && bo.Op == token.EQL && (isGlobalNamed(bo.X, "io", "EOF") || isGlobalNamed(bo.Y, "io", "EOF")) {
-						eofTests = append(eofTests, bo)
-					}
-				}
-			}
-			cut := mkCut(boolEdges(isAnc, forward(eofTests, fwdOpts{noBinOp: true}), true))
+			// (1) IsAncestorOf — and the helpers of the package with a (bool, error) result it hands the
+			// question to (depth 2; round 7, refactoring N2-r1) —: Return(false, nil) only via the io.EOF edge
 			n := 0
-			for _, ret := range returnsOf(isAnc) {
-				if len(ret.Results) != 2 {
-					continue
+			cands := []*ssa.Function{isAnc}
+			seenC := map[*ssa.Function]bool{isAnc: true}
+			for d, frontier := 0, []*ssa.Function{isAnc}; d < 2; d++ {
+				var next []*ssa.Function
+				for _, f := range frontier {
+					eachCall(f, func(c ssa.CallInstruction) {
+						g := c.Common().StaticCallee()
+						if g == nil || seenC[g] || fnPkgPath(g) != fnPkgPath(isAnc) || len(g.Blocks) == 0 {
+							return
+						}
+						res := g.Signature.Results()
+						if res.Len() != 2 || !isBoolType(res.At(0).Type()) || !isErrorType(res.At(1).Type()) {
+							return
+						}
+						seenC[g] = true
+						cands = append(cands, g)
+						next = append(next, g)
+					})
 				}
-				v0, v1 := retVal(ret, 0), retVal(ret, 1)
-				c0, isC := v0.(*ssa.Const)
-				if !isC || c0.Value == nil || c0.Value.String() != "false" || !isNilConst(v1) {
-					continue
+				frontier = next
+			}
+			r.Analysed = 1 + len(cands)
+			for _, isAnc := range cands {
+				var eofTests []ssa.Value
+				eachCall(isAnc, func(c ssa.CallInstruction) {
+					if f := calleeFunc(c); f != nil && f.FullName() == "errors.Is" && len(c.Common().Args) == 2 && isGlobalNamed(c.Common().Args[1], "io", "EOF") {
+						if v, ok := c.(*ssa.Call); ok {
+							eofTests = append(eofTests, v)
+						}
+					}
+				})
+				// err == io.EOF form
+				for _, b := range isAnc.Blocks {
+					for _, in := range b.Instrs {
+						if bo, ok := in.(*ssa.BinOp); ok && bo.Op == token.EQL && (isGlobalNamed(bo.X, "io", "EOF") || isGlobalNamed(bo.Y, "io", "EOF")) {
+							eofTests = append(eofTests, bo)
+						}
+					}
 				}
-				key := fmt.Sprintf("%s|return(false,nil)#%d", funcName(isAnc), n)
-				n++
-				what := "'not an ancestor' is answered only when the frontier is exhausted"
-				if path, reach := reachAfter(isAnc, nil, ret, cut, nil); reach {
-					r.bad(key, p.Rel(ret.Pos()), what, fmtPath("the negative answer is reachable without the io.EOF edge", path))
-				} else {
-					r.ok(key, p.Rel(ret.Pos()), what)
+				cut := mkCut(boolEdges(isAnc, forward(eofTests, fwdOpts{noBinOp: true}), true))
+				for _, ret := range returnsOf(isAnc) {
+					if len(ret.Results) != 2 {
+						continue
+					}
+					v0, v1 := retVal(ret, 0), retVal(ret, 1)
+					c0, isC := v0.(*ssa.Const)
+					if !isC || c0.Value == nil || c0.Value.String() != "false" || !isNilConst(v1) {
+						continue
+					}
+					key := fmt.Sprintf("%s|return(false,nil)#%d", funcName(isAnc), n)
+					n++
+					what := "'not an ancestor' is answered only when the frontier is exhausted"
+					if path, reach := reachAfter(isAnc, nil, ret, cut, nil); reach {
+						r.bad(key, p.Rel(ret.Pos()), what, fmtPath("the negative answer is reachable without the io.EOF edge", path))
+					} else {
+						r.ok(key, p.Rel(ret.Pos()), what)
+					}
 				}
 			}
 			// (2) Pop: returning io.EOF only when Len()==0
